@@ -22,11 +22,17 @@ for name in sorted(os.listdir(os.path.join(VERIF, "seeded"))):
     ev = tempfile.mkdtemp(prefix="cv-seeded-")
     caught = {}
     try:
-        for pid in ALL:
+        def one(pid):
             env = dict(os.environ, CV_EVIDENCE_DIR=ev)
             rr = subprocess.run([os.path.join(VERIF, "check"), pid], cwd=VERIF, env=env, stdout=subprocess.PIPE, stderr=subprocess.STDOUT, text=True)
-            keys = re.findall(r"^  violation: (.*)$", rr.stdout, re.M)
-            if rr.returncode != 0:
+            return pid, rr.returncode, re.findall(r"^  violation: (.*)$", rr.stdout, re.M)
+        # the first check extracts the facts of the patched tree, the others reuse them in parallel
+        from concurrent.futures import ThreadPoolExecutor
+        results = [one(ALL[0])]
+        with ThreadPoolExecutor(max_workers=12) as ex:
+            results += list(ex.map(one, ALL[1:]))
+        for pid, code, keys in results:
+            if code != 0:
                 caught[pid] = keys
     finally:
         subprocess.run(["git", "-C", "/repo", "checkout", "--", "."], check=True)
